@@ -191,6 +191,18 @@ class PEval:
                     not isinstance(a.value, bool):
                 return Const(str(a.value))
             return None
+        if isinstance(expr, ast.Call) and isinstance(expr.func, ast.Name) \
+                and expr.func.id in ("repr", "float") and \
+                len(expr.args) == 1 and not expr.keywords:
+            a = self.value(expr.args[0], env)
+            if isinstance(a, Const) and isinstance(a.value, (int, float)) \
+                    and not isinstance(a.value, bool):
+                return Const(repr(a.value) if expr.func.id == "repr"
+                             else float(a.value))
+            if isinstance(a, Const) and isinstance(a.value, str) and \
+                    expr.func.id == "repr":
+                return Const(repr(a.value))
+            return None
         if isinstance(expr, ast.BinOp) and isinstance(expr.op, ast.Add):
             a, b = self.value(expr.left, env), self.value(expr.right, env)
             if isinstance(a, Const) and isinstance(b, Const) and \
